@@ -69,6 +69,7 @@ TSeek     == Is("Seek") /\ Intact /\ Seek(Ev.i, Ev.k)
 TNext     == Is("Next") /\ Intact          \* buffers handed out stayed intact until this call
                         /\ (IF Ev.ok THEN NextHit(Ev.i, Ev.k, Ev.v, IF Has("calls") THEN Ev.calls ELSE <<>>) ELSE NextMiss(Ev.i))
 TClose    == Is("Close") /\ Intact /\ Close(Ev.i)
+TMergeTool == Is("MergeTool") /\ MergeTool(Ev.inputs, Ev.out, Ev.rc = 0)
 TSrcWrite == Is("SrcWrite") /\ SrcWrite(Ev.src, Ev.w, Ev.ok)
 Spills    == IF Has("spills") THEN Ev.spills ELSE <<>>
 TSInit    == Is("SInit") /\ SInit(Ev.s, Ev.maxmem, Ev.tmpdir, Ev.merge # 0, Ev.failtok, Ev.pool)
@@ -90,7 +91,7 @@ TPoolDestroy == Is("PoolDestroy") /\ PoolDestroy(Ev.p)
 TApi == \/ TJudge \/ TIgnore \/ TInfo \/ TDump \/ TFileStruct \/ TFileHash \/ TMkOther \/ TMkTable \/ TRm
         \/ TWInit \/ TWAdd \/ TWClose \/ TROpen \/ TRDestroy \/ TRMeta
         \/ TUInit \/ TUAdd \/ TUDestroy \/ TMInit \/ TMAdd \/ TMDestroy
-        \/ TOpen \/ TSeek \/ TNext \/ TClose \/ TSrcWrite
+        \/ TOpen \/ TSeek \/ TNext \/ TClose \/ TSrcWrite \/ TMergeTool
         \/ TFsOpen \/ TFsClose \/ TClock \/ TSetFile \/ TFsInit \/ TFsDup \/ TFsReload \/ TFsReloadNow \/ TFsDestroy
         \/ TSInit \/ TSAdd \/ TSIter \/ TSWrite \/ TSDestroy \/ TPoolInit \/ TPoolDestroy
 TNext0 == TReset \/ TObs \/ TLeak \/ (TApi /\ UNCHANGED obase)
